@@ -29,6 +29,7 @@ RULE = ('Hypothesis generates data lines (n in 0..12, flags over {0,1,2,3,4,9}, 
 RULE += (' ' + 'Round trip entry: element types of the flux and error sequences vary independently (Python / numpy floats, integers, float32), containers list / tuple / array, coordinates up to +-20000.')
 RULE += (' ' + "Entry 'chars': lines whose tokens are built from arbitrary characters (digits, signs, exponents, separators, letters, non-ASCII digits), classified by the reference as must-parse / must-reject / either.")
 RULE += (' ' + 'The sources parsed within one case stay alive and are examined again after the later lines were read.')
+RULE += (' ' + 'Entry "datafile": fit() is given a data file with one line of 0..2 columns at any position; records exist for exactly the eligible sources before it.')
 ASSUMPTIONS = [
     'numeric tokens are plain decimal / exponent literals; nothing is claimed about exotic literals numpy may accept',
     'a token in a flag position that is not an integer literal but is numerically an allowed flag (e.g. 1.000e+00) '
@@ -437,10 +438,60 @@ def run_roundtrip(case, ctx):
     return labels, n >= 1
 
 
-ENTRIES = {'parse': run_parse, 'roundtrip': run_roundtrip, 'chars': run_chars}
+# ------------------------------------------------------------------------------------------ "ends the input", seen from fit()
+
+@st.composite
+def datafile_case(draw):
+    """a data file handed to fit() with one line of fewer than three columns somewhere in it"""
+    from props import c10
+    c = draw(c10.fit_cases(formats2=('v1',), formats3=('v1',), max_lines=5))
+    c['selector'] = ['N', 1]
+    c['output_convolved'] = False
+    c['cut_after'] = draw(st.integers(0, len(c['lines'])))
+    c['short_line'] = draw(st.sampled_from(['', '   ', '\t', 'stub', 'stub 1.5', 'x y', '#']))
+    return c
+
+
+def run_datafile(case, ctx):
+    import os
+    from sedfitter import fit
+    from props import c10
+    from vlib import pkgio, fitinfo_gen as fg
+    from vlib.runner import quiet
+    cut = case['cut_after']
+    labels = {'short_line_%s' % ('first' if cut == 0 else 'last' if cut == len(case['lines']) else 'in_the_middle'),
+              'short_line_columns=%d' % len(case['short_line'].split())}
+    with ctx.tempdir() as d:
+        mdir, dr = c10.build(case, d)
+        fnames, aps, law, dr = c10.fit_args(case, mdir, dr)
+        lines = [pkgio.source_line(s_['name'], s_['x'], s_['y'], s_['flags'], s_['flux'], s_['err']).rstrip('\n')
+                 for s_ in case['lines']]
+        data = os.path.join(d, 'data.txt')
+        with open(data, 'w') as f:
+            f.write('\n'.join(lines[:cut] + [case['short_line']] + lines[cut:]) + '\n')
+        output = os.path.join(d, 'output.fitinfo')
+        with must_succeed('fit() on a data file whose line %d has %d column(s)' % (cut + 1, len(case['short_line'].split()))), quiet():
+            fit(data, fnames, aps, mdir, output, n_data_min=case['n_data_min'], extinction_law=law,
+                av_range=list(case['av_range']), distance_range=dr, output_format=tuple(case['selector']))
+        want = [s_['name'] for s_ in case['lines'][:cut] if sum(1 for f_ in s_['flags'] if f_ in (1, 4)) >= case['n_data_min']]
+        if os.path.exists(output) and os.path.getsize(output) > 0:
+            with must_succeed('reading the fit output file'):
+                recs, _ = fg.read_fit_file(output)
+            got = [r.source.name for r in recs]
+        else:
+            got = []
+        if got != want:
+            fail('data file with a %d-column line as line %d of %d: fit() wrote records for %r; the sources read before the input '
+                 'ended (with enough fitted points) are %r' % (len(case['short_line'].split()), cut + 1, len(lines) + 1, got, want),
+                 'parse:short_line_does_not_end_input')
+    return labels, 0 < cut < len(case['lines'])
+
+
+ENTRIES = {'parse': run_parse, 'roundtrip': run_roundtrip, 'chars': run_chars, 'datafile': run_datafile}
 
 
 def plan(ctx):
     ctx.run_given('parse', line_case(), ctx.scale(60, 1500))
     ctx.run_given('roundtrip', source_case(), ctx.scale(60, 1500))
     ctx.run_given('chars', char_case(), ctx.scale(120, 4000))
+    ctx.run_given('datafile', datafile_case(), ctx.scale(12, 250), shrink=not ctx.quick)
